@@ -95,6 +95,21 @@ func fuzzOracle(t *testing.T, subs []string, in []byte) {
 		r := runTarget(target, in, fuzzLo)
 		var o hx.Outcome
 		verdict(&o, target, in, known{}, r)
+		if drainTarget(target) && !r.Unsafe && r.Panic == nil {
+			// same bytes through a (guarded) seekable source, payloads left unread / partly read:
+			// the outcome must not depend on the kind of reader
+			for _, co := range []opt{{Src: "seekguard", Drain: "none"}, {Src: "seekguard", Drain: "part"}} {
+				b := r
+				if co.Drain != o2default(target) {
+					b = runTargetOpt(target, in, fuzzLo, opt{Drain: co.Drain})
+				}
+				rv := runTargetOpt(target, in, fuzzLo, co)
+				verdictTag(&o, target, ":seekable-source", in, known{}, rv)
+				if !b.Unsafe && !rv.Unsafe && b.Panic == nil && rv.Panic == nil && ((b.Err == nil) != (rv.Err == nil) || b.Calls != rv.Calls) {
+					o.Fail("C19:"+target+":source-dependent:seekable-source", "%s on %d bytes (drain %s): seekable source gives err=%v after %d results, stream reader err=%v after %d", target, len(in), co.Drain, rv.Err, rv.Calls, b.Err, b.Calls)
+				}
+			}
+		}
 		for _, v := range o.Violations {
 			if knownSigs()[v.Sig] {
 				countSkip(v.Sig)
